@@ -570,7 +570,7 @@ def classes(draw, ctx: Ctx, path: Tuple[str, ...]):
     ctx.lower_classes.add(name.lower())
     template = None
     if prof.templates and draw(st.integers(0, 1 if reused else prof.class_template_odds)) == 0:
-        template = draw(templates(ctx))
+        template = draw(templates(ctx, used={name}))  # a parameter is not named like its class
     ctp = tuple(template.names()) if template else ()
     class_ok = {p.name for p in template.params if not any(i.targs for i in p.insts)} \
         if template else set()
@@ -626,7 +626,7 @@ def classes(draw, ctx: Ctx, path: Tuple[str, ...]):
         if k == 'ctor':
             mt = None
             if prof.templates and draw(st.integers(0, prof.member_template_odds)) == 0:
-                mt = draw(templates(ctx, used=ctp, force_lists=True, max_params=2))
+                mt = draw(templates(ctx, used=set(ctp) | {name}, force_lists=True, max_params=2))
                 ctx.scoped_ok |= {p.name for p in mt.params if not any(i.targs for i in p.insts)}
             tps = ctp + (tuple(mt.names()) if mt else ())
             cargs = draw(arg_lists(ctx, tps, this=True))
@@ -641,7 +641,7 @@ def classes(draw, ctx: Ctx, path: Tuple[str, ...]):
         elif k in ('method', 'static'):
             mt = None
             if prof.templates and draw(st.integers(0, prof.member_template_odds)) == 0:
-                mt = draw(templates(ctx, used=ctp, force_lists=True, max_params=2))
+                mt = draw(templates(ctx, used=set(ctp) | {name}, force_lists=True, max_params=2))
                 ctx.scoped_ok |= {p.name for p in mt.params if not any(i.targs for i in p.insts)}
             tps = ctp + (tuple(mt.names()) if mt else ())
             same_kind = sorted({x.name for x in members
